@@ -6,6 +6,8 @@ verus! {
 //@  rewrite /#\[derive\([^)]*\)\]/ => /#[derive(Copy, Clone)]/
 //@end
 
+global layout TagTypeId is size == 4, align == 4;
+
 //@extract multiboot2/src/tag_type.rs :: enum TagType
 //@  keepattrs #\[derive
 //@  rewrite /#\[derive\([^)]*\)\]/ => /#[derive(Copy, Clone)]/
